@@ -195,9 +195,19 @@ impl SocksListener {
                     None
                 };
                 let target = into_unspecified(local).into();
-                let (mut listen_addr, frames) = setup_udp_session(local, remote)
+                let (mut listen_addr, frames) = match setup_udp_session(local, remote)
                     .await
-                    .context("setup_udp_session")?;
+                    .context("setup_udp_session")
+                {
+                    Ok(x) => x,
+                    Err(e) => {
+                        // e.g. the announced client address is of another family than the relay socket: like
+                        // the other requests that cannot be served, reply and record the end of the session
+                        debug!("udp session setup failed: {}", e);
+                        ctx.on_error(e).await;
+                        return Ok(());
+                    }
+                };
 
                 if let Some(override_addr) = self.override_udp_address {
                     listen_addr = SocketAddr::new(override_addr, listen_addr.port());
